@@ -1,7 +1,7 @@
 """Call handling for pyvc: builtins, library-model methods, spec functions, contracts, lambda inlining."""
 import ast
 import z3
-from .core import Val, Raise, Unsupported, fresh_const, bound_var
+from .core import Val, Raise, Unsupported, fresh_const, bound_var, fresh_name
 from .sorts import (sort_of, SExp, SList, Tree, S, Q, I, R, B, sv, SPEC_FUNCS, tval, divzero,
                     tree_refs_ok, leaf_of)
 from . import models, source
@@ -808,6 +808,14 @@ def method_call(self, st, base, attr, args, node):
                 i = bound_var("vi", I)
                 s = st.assume(z3.Length(vs) == z3.Length(ks.t))
                 s = s.assume(z3.ForAll([i], z3.Implies(z3.And(i >= 0, i < z3.Length(ks.t)), vs[i] == z3.Select(mp.t, ks.t[i])), patterns=[vs[i]]))
+                s = s.assume(z3.ForAll([i], z3.Implies(z3.And(i >= 0, i < z3.Length(ks.t)), z3.Contains(ks.t, z3.Unit(ks.t[i]))), patterns=[vs[i]]))
+                # every key's entry occurs in the list (at the key's position): a witness position per key
+                kk = bound_var("vk", sort_of(ks.ty[1]))
+                vw = z3.Function(fresh_name("vpos"), sort_of(ks.ty[1]), I)
+                s = s.assume(z3.ForAll([kk], z3.Implies(z3.Contains(ks.t, z3.Unit(kk)),
+                                                         z3.And(vw(kk) >= 0, vw(kk) < z3.Length(ks.t), ks.t[vw(kk)] == kk, vs[vw(kk)] == z3.Select(mp.t, kk))),
+                                         patterns=[vw(kk)]))
+                s.ghost["values_witness"] = vw
                 ety = ("ref", models.CLASSES[cls].get("elem") or self.c.get("dict_values", {}).get(cls, "opaque")) if mp.ty[2] == "int" else mp.ty[2]
                 yield s, Val(vs, ("seq", ety))
                 return
@@ -837,6 +845,29 @@ def method_call(self, st, base, attr, args, node):
                 self.write_field(s, base, cls, "keys", Val(nk.t, ks.ty), line)
                 self.write_field(s, base, cls, "map", Val(nm.t, mp.ty), line)
                 yield s, Val(z3.IntVal(0), "none")
+                return
+            if attr == "setdefault" and len(args) == 2:
+                # d.setdefault(k, v): the entry of k if present (dictionary unchanged), otherwise k -> v is appended and v returned
+                kt = self.coerce(args[0], ks.ty[1]).t
+                present = z3.Contains(ks.t, z3.Unit(kt))
+                vty = ("ref", models.CLASSES[cls].get("elem") or self.c.get("dict_values", {}).get(cls, "opaque")) if mp.ty[2] == "int" else mp.ty[2]
+                s_yes = st.assume(present)
+                if self.feasible(s_yes):
+                    yield s_yes, Val(z3.Select(mp.t, kt), vty)
+                s_no = st.assume(z3.Not(present))
+                if self.feasible(s_no):
+                    newkeys = fresh_const("sdkeys", ks.t.sort())
+                    xk = bound_var("xk", kt.sort())
+                    jj = bound_var("kj", I)
+                    n0 = z3.Length(ks.t)
+                    s_no.conds.append(newkeys == z3.Concat(ks.t, z3.Unit(kt)))
+                    s_no.conds.append(z3.ForAll([xk], z3.Contains(newkeys, z3.Unit(xk)) == z3.Or(z3.Contains(ks.t, z3.Unit(xk)), xk == kt)))
+                    s_no.conds.append(z3.Length(newkeys) == n0 + 1)
+                    s_no.conds.append(z3.ForAll([jj], z3.Implies(z3.And(jj >= 0, jj < n0), newkeys[jj] == ks.t[jj]), patterns=[newkeys[jj]]))
+                    s_no.conds.append(newkeys[n0] == kt)
+                    self.write_field(s_no, base, cls, "keys", Val(newkeys, ks.ty), line)
+                    self.write_field(s_no, base, cls, "map", Val(z3.Store(mp.t, kt, self.coerce(args[1], mp.ty[2]).t), mp.ty), line)
+                    yield s_no, Val(self.coerce(args[1], mp.ty[2]).t, vty)
                 return
             if attr == "get" and len(args) == 1 and mp.ty[2] == "int":
                 present = z3.Contains(ks.t, z3.Unit(args[0].t))
@@ -874,7 +905,8 @@ def method_call(self, st, base, attr, args, node):
         s = st.fork()
         self.cast_guard(st, args[0], base.ty[1], getattr(node, "lineno", None))
         x = self.coerce(args[0], base.ty[1]).t
-        new = z3.Concat(base.t, z3.Unit(x))
+        new = fresh_const("lapp", base.t.sort())
+        s.conds.append(new == z3.Concat(base.t, z3.Unit(x)))
         # sound facts about append, stated explicitly so that quantified invariants over indices instantiate
         k = bound_var("k", I)
         n0 = z3.Length(base.t)
